@@ -204,7 +204,9 @@ def handle (line : String) : String :=
     | some inp, some sl, some sc, some el, some ec =>
       showExcept showCps (getOrigText B (origLines inp) ⟨sl, sc⟩ ⟨el, ec⟩)
     | _, _, _, _, _ => "bad-op"
-  | ["tree", _cfgid, _gid, _smart, spans, syn, kw, endN, skip, ik, idata, tbl, shape] =>
+  | [op, _cfgid, _gid, _smart, spans, syn, kw, endN, skip, ik, idata, tbl, shape] =>
+    -- `tree`: the tree `parse` returned; `ctree`: its `clone()` — a copy carries the same spans
+    if op ≠ "tree" ∧ op ≠ "ctree" then "bad-op" else
     match parseCfg spans syn kw endN, parseNatList skip, parseInput ik idata, parseTable tbl,
         parseShape shape.toList [[]] with
     | some cfg, some skip, some inp, some tbl, some tree =>
